@@ -76,7 +76,7 @@ def cases(tier, seed):
         for _ in range(40 if tier == 'quick' else 400):
             add('morphism', cfg, rng.choice(S3), rng.choice(S3))
     for d, cfgs in ((4, [dict(p=3, r=1), dict(p=2, q=2), dict(name='3DPGA')]), (5, [dict(p=4, q=1), dict(name='STAP')]),
-                    (7, [dict(p=6, r=1)]), (8, [dict(p=4, q=4)])):
+                    (7, [dict(p=6, r=1), dict(p=4, q=1, r=2)]), (8, [dict(p=4, q=4)])):
         for cfg in cfgs:
             order = list(range(2 ** d)) if d > 6 else None
             R = pat.RND(d, (30 if tier == 'quick' else 300) if d < 7 else (8 if tier == 'quick' else 40), rng, max_len=9, order=order)
